@@ -145,10 +145,11 @@ Inductive entry :=
 Record fixes := mk_fixes {
   fx_visits : bool;     (* visited marks every (function, index) it is asked about *)
   fx_closure : bool;    (* the closure's own result tuple is indexed *)
-  fx_concat : bool      (* Concat returns the concatenation *)
+  fx_concat : bool;     (* Concat returns the concatenation *)
+  fx_fallback : bool    (* Results reports the declared types when the registered node is of a kind it does not handle *)
 }.
-Definition all_fixed := mk_fixes true true true.
-Definition unfixed := mk_fixes false false false.
+Definition all_fixed := mk_fixes true true true true.
+Definition unfixed := mk_fixes false false false false.
 
 (* ---- visits (resolver.go:28-47) ---- *)
 Definition visits := list (nat * list bool).     (* map[*ast.FuncType][]bool, keyed by table index *)
@@ -454,7 +455,7 @@ Section Resolver.
            end) in
         Ok (concat_results (from_signature sigres) inner, n)
     | EnSig => Ok (from_signature sigres, n)
-    | EnOther => Ok ([], n)
+    | EnOther => Ok ((if fx_fallback fx then from_signature sigres else []), n)
     end.
 End Resolver.
 
